@@ -6,6 +6,7 @@ call, no unsafe Send/Sync) are regenerated from the source into coq/Gen/SyncSite
 Correspondence = stress: one Arc<ModelEvaluator> shared by 2..16 threads (`dv threads`), randomised barriers / yields / call
 orders, every result compared with the sequential result, watchdog for deadlock, final pass for a poisoned lock."""
 import json
+import random
 import os
 import subprocess
 import sys
@@ -65,6 +66,8 @@ def stress_model():
         '<inputData name="d" id="i_d"><variable name="d" typeRef="date"/></inputData>',
         '<inputData name="p" id="i_p"><variable name="p" typeRef="string"/></inputData>',
         '<inputData name="q" id="i_q"><variable name="q" typeRef="string"/></inputData>',
+        '<inputData name="w" id="i_w"><variable name="w" typeRef="string"/></inputData>',
+        '<inputData name="y" id="i_y"><variable name="y" typeRef="string"/></inputData>',
         '<businessKnowledgeModel name="fib" id="b_fib"><variable name="fib"/><encapsulatedLogic><formalParameter name="n" typeRef="number"/>'
         '<literalExpression><text>%s</text></literalExpression></encapsulatedLogic></businessKnowledgeModel>' % esc('if n < 2 then n else fib(n - 1) + fib(n - 2)'),
         lit('num', 'decimal(sum(for i in 1..15 return (a + i) ** 2 / 7) + sqrt(abs(a) + 1) + exp(1) * log(abs(a) + 2), 20)', inputs=['a']),
@@ -94,6 +97,12 @@ def stress_model():
         # a long chain of required decisions: every thread is 150 decisions deep at the same time (anything that counts or stores per-call
         # nesting in a place shared between calls shows here; seeded change C20_d: a process-wide nesting counter)
         *[lit('c%d' % i, ('c%d + 1' % (i + 1)) if i < 149 else 'a', inputs=(['a'] if i == 149 else []), decisions=([('c%d' % (i + 1))] if i < 149 else [])) for i in range(150)],
+        # local times in named zones on the days of a clock change, on both sides of the change, in calls that run at the same time (anything that
+        # remembers a zone's offset per zone or per day between calls shows here; seeded change C20_e: a process-wide cache keyed by zone and date)
+        lit('zon', '[string(date and time(w + "@Europe/Warsaw") - date and time("2021-03-27T12:00:00Z")), '
+                   'string(date and time(w + "@Europe/Warsaw") < date and time("2021-03-28T01:15:00Z")), '
+                   'string(date and time(y + "@America/New_York") - date and time("2021-11-06T12:00:00Z")), '
+                   'string(date and time(y + "@America/New_York") = date and time(y + "-05:00"))]', inputs=['w', 'y']),
         lit('top', '{n: num, t: tbl, r: rex, f: fib(modulo(abs(floor(a)), 11))}', decisions=['num', 'tbl', 'rex'], knowledge=['fib'], inputs=['a']),
         '<decisionService name="svc" id="s_svc"><variable name="svc"/><outputDecision href="#d_top"/><encapsulatedDecision href="#d_num"/>'
         '<encapsulatedDecision href="#d_tbl"/><encapsulatedDecision href="#d_rex"/><inputData href="#i_a"/><inputData href="#i_s"/></decisionService>',
@@ -109,8 +118,11 @@ def gen_calls(rng, n):
         a = rng.choice([0, 1, 5, 6.5, 7, 9.99, 10, 25, 50, 99, 100, 1001, -3, -0.5, 123456.789]) if rng.random() < 0.7 else round(rng.uniform(-50, 1500), 3)
         s = rng.choice(words)
         d = rng.choice(dates)
-        inv = rng.choice(['num', 'tmp', 'rex', 'tbl', 'top', 'top', 'svc', 'fib', 'rnd', 'rnd', 'trn', 'trn', 'pri', 'pri', 'ord', 'ord', 'c0', 'c0', 'c75'])
-        if inv == 'fib':
+        inv = rng.choice(['num', 'tmp', 'rex', 'tbl', 'top', 'top', 'svc', 'fib', 'rnd', 'rnd', 'trn', 'trn', 'pri', 'pri', 'ord', 'ord', 'c0', 'c0', 'c75', 'zon', 'zon', 'zon'])
+        if inv == 'zon':
+            ctx = '{w: "2021-03-28T%s", y: "2021-11-07T%s"}' % (rng.choice(['00:30:00', '01:30:00', '01:59:59', '03:00:00', '03:30:00', '12:00:00']),
+                                                               rng.choice(['00:30:00', '00:59:59', '02:00:00', '03:30:00', '12:00:00']))
+        elif inv == 'fib':
             ctx = '{n: %d}' % rng.randint(0, 13)
         else:
             ctx = '{a: %s, s: "%s", d: date("%s")}' % (a, s, d)
@@ -197,6 +209,40 @@ def run_stress(ctx, exe, xml, calls, threads, per_thread, seed, timeout_s, trial
     return json.loads(lines[0]), time.time() - t0
 
 
+def alone_phase(ctx, exe, xml):
+    """Every call of a generated list is also made ALONE, by a process of its own, and the values are compared with those the same calls
+    give when one process makes them one after the other: state that a call leaves behind for the next call of the process (a cache with
+    too coarse a key, a counter, a pool) is seen even when it is not a race (seeded change C20_e: zone offsets cached per zone and date)."""
+    from concurrent.futures import ThreadPoolExecutor
+    calls = gen_calls(random.Random(ctx.seed * 77 + 5), ctx.pick(96, 400))
+    seen, uniq = set(), []
+    for c in calls:
+        if tuple(c) not in seen:
+            seen.add(tuple(c))
+            uniq.append(c)
+
+    def show(cs):
+        p = subprocess.run([exe, 'threads'], input=json.dumps({'xml': xml, 'calls': cs, 'threads': 1, 'per_thread': 1, 'seed': 1, 'timeout_s': 60, 'trials': 1, 'show': True}) + '\n',
+                           stdout=subprocess.PIPE, stderr=subprocess.PIPE, text=True, timeout=600)
+        lines = [l for l in p.stdout.split('\n') if l.strip()]
+        return json.loads(lines[0]).get('expected') if lines else None
+    together = show(uniq)
+    with ThreadPoolExecutor(max_workers=16) as ex:
+        alone = list(ex.map(lambda c: show([c]), uniq))
+    ctx.cov['calls_made_alone_in_own_process'] = len(uniq)
+    if together is None or any(a is None for a in alone):
+        ctx.violation('the harness could not evaluate the calls one by one', {'calls': uniq[:5]}, impl=str(together)[:200])
+        return
+    for c, t, a in zip(uniq, together, alone):
+        ctx.evaluations += 1
+        ctx.corr_checked += 1
+        if t != a[0]:
+            ctx.violation('evaluation of %s with input %s returns %s when the process made other calls before it, and %s when it is the only call of its process '
+                          '(a call observes what another call left behind)' % (c[0], c[1], str(t)[:200], str(a[0])[:200]),
+                          {'alone_phase': True, 'calls': uniq[:uniq.index(c) + 1]}, impl={'after other calls': t, 'alone': a[0]})
+            return
+
+
 SITES_HEADER = 'From Coq Require Import List NArith Bool.\nFrom DV Require Import C20.Conc C20.Sites Gen.SyncSites.\nImport ListNotations.\n'
 NESTED = [['top', '{a: 7, s: "gamma", d: date("1999-12-31")}'], ['svc', '{a: 25, s: "alpha", d: date("2021-01-31")}'],
           ['top', '{a: 1001, s: "beta", d: date("2024-06-15")}'], ['fib', '{n: 9}'], ['tbl', '{a: 6.5, s: "alpha"}']]
@@ -268,6 +314,7 @@ def run(ctx):
     exe = ctx.build_harness()
     xml = stress_model()
     directed_search(ctx, exe, xml, found)
+    alone_phase(ctx, exe, xml)
     total_calls = 0
     runs = []
     budget = ctx.pick(28, 540)
